@@ -1,6 +1,7 @@
 package main
 
 import (
+	"bytes"
 	"encoding/json"
 	"fmt"
 	"strings"
@@ -10,6 +11,7 @@ import (
 	"github.com/spikeekips/mitum/isaac"
 	isaacblock "github.com/spikeekips/mitum/isaac/block"
 	"github.com/spikeekips/mitum/util"
+	"github.com/spikeekips/mitum/util/encoder"
 	"github.com/spikeekips/mitum/util/fixedtree"
 	"github.com/spikeekips/mitum/util/valuehash"
 )
@@ -70,6 +72,7 @@ func runC13(c *Ctx) error {
 		n = 8000
 	}
 	w := &c13world{node: base.RandomNode(), ids: map[string]int{}}
+	env13, _ := c19newEnv()
 	for i := 0; i < n; i++ {
 		// a short chain of suffrage states: genesis (height 0), then growing heights
 		var chain []c13state
@@ -255,41 +258,85 @@ func runC13(c *Ctx) error {
 							continue
 						}
 						slots++
-						fraw := append([]json.RawMessage{}, raw...)
-						fraw[slot] = json.RawMessage(fmt.Sprintf(`{"isempty":true,"key":%q}`, forgedState.st.Hash().String()))
-						fb, _ := json.Marshal(fraw)
-						var forged fixedtree.Proof
-						if json.Unmarshal(fb, &forged) != nil {
-							continue
+						for _, how := range []string{"empty-slot-with-key", "leaf-in-empty-slot"} {
+							fraw := append([]json.RawMessage{}, raw...)
+							fraw[slot] = json.RawMessage(fmt.Sprintf(`{"isempty":true,"key":%q}`, forgedState.st.Hash().String()))
+							if how == "leaf-in-empty-slot" { // a complete, self-consistent leaf where the honest path has nothing
+								fk := forgedState.st.Hash().String()
+								lb, err := json.Marshal(fixedtree.NewBaseNode(fk).SetHash(valuehash.NewSHA256([]byte(fk))))
+								if err != nil {
+									continue
+								}
+								fraw[slot] = lb
+							}
+							fb, _ := json.Marshal(fraw)
+							var forged fixedtree.Proof
+							if json.Unmarshal(fb, &forged) != nil {
+								continue
+							}
+							fsp := isaacblock.NewSuffrageProof(c13map{m: manifest}, forgedState.st, forged)
+							fres := func() (out string) {
+								defer func() {
+									if r := recover(); r != nil {
+										out = "panic"
+									}
+								}()
+								if err := fsp.IsValid(nil); err != nil {
+									return "invalid"
+								}
+								var ps base.State
+								if prev != nil {
+									ps = prev.st
+								}
+								if err := fsp.Prove(ps); err != nil {
+									return "error"
+								}
+								return "ok"
+							}()
+							c.Eval(1)
+							c.Count("forged-empty-slot", fres)
+							if fres == "ok" {
+								c.Violation("C13:state-outside-the-tree-proved", fmt.Sprintf("%s: the proof JSON with its empty slot %d rewritten (%s) to carry the key of a state that is not in the states tree is accepted by IsValid and Prove for that state", line, slot, how),
+									map[string]interface{}{"line": line, "slot": slot, "how": how, "proof_json": string(fb)})
+							}
 						}
-						fsp := isaacblock.NewSuffrageProof(c13map{m: manifest}, forgedState.st, forged)
-						fres := func() (out string) {
+					}
+					if slots == 0 {
+						c.Count("forged-empty-slot", "path-without-empty-slot")
+					}
+				}
+			}
+		}
+		// the state of an honest proof as it arrives (JSON) with its suffrage node rewritten and its hash kept: the proof
+		// must be refused, for the genesis state (no previous state hash) as for any other
+		if res == "ok" && kind == "valid" && env13 != nil {
+			if sb, err := env13.enc.Marshal(st.st); err == nil {
+				old, other := []byte(w.node.Address().String()), []byte(base.RandomAddress("").String())
+				if bytes.Contains(sb, old) {
+					var rst base.State
+					if encoder.Decode(env13.enc, bytes.Replace(sb, old, other, -1), &rst) == nil && rst.Hash().Equal(st.st.Hash()) {
+						fsp := isaacblock.NewSuffrageProof(c13map{m: manifest}, rst, proof)
+						accepted := func() (ok bool) {
 							defer func() {
 								if r := recover(); r != nil {
-									out = "panic"
+									ok = false
 								}
 							}()
-							if err := fsp.IsValid(nil); err != nil {
-								return "invalid"
+							if fsp.IsValid(nil) != nil {
+								return false
 							}
 							var ps base.State
 							if prev != nil {
 								ps = prev.st
 							}
-							if err := fsp.Prove(ps); err != nil {
-								return "error"
-							}
-							return "ok"
+							return fsp.Prove(ps) == nil
 						}()
 						c.Eval(1)
-						c.Count("forged-empty-slot", fres)
-						if fres == "ok" {
-							c.Violation("C13:state-outside-the-tree-proved", fmt.Sprintf("%s: the proof JSON with its empty slot %d rewritten to carry the key of a state that is not in the states tree is accepted by IsValid and Prove for that state", line, slot),
-								map[string]interface{}{"line": line, "slot": slot, "proof_json": string(fb)})
+						c.Count("rewritten-state", map[bool]string{true: "genesis", false: "later"}[st.st.Previous() == nil]+map[bool]string{true: "/accepted", false: "/refused"}[accepted])
+						if accepted {
+							c.Violation("C13:rewritten-state-accepted", fmt.Sprintf("%s: the proof with its state's suffrage node rewritten under the state's old hash is accepted by IsValid and Prove", line),
+								map[string]interface{}{"line": line, "genesis": st.st.Previous() == nil})
 						}
-					}
-					if slots == 0 {
-						c.Count("forged-empty-slot", "path-without-empty-slot")
 					}
 				}
 			}
